@@ -14,7 +14,7 @@ Proof. unfold relax_set. lia. Qed.
 
 (* every weight selector is a lambda of as many parameters as the call `edge_length(v, nv)` passes *)
 Lemma sp_arity_ok : forall ws, sp_arity ws = sp_call_arity.
-Proof. intros [| |]; reflexivity. Qed.
+Proof. intros [| | |]; reflexivity. Qed.
 
 (* the selectors compute the weight of the edge {v, nv}: 1 / its length / its custom weight *)
 Lemma sp_weight_eq m ws a b : sp_weight m ws a b = mweight m ws a b.
@@ -108,12 +108,14 @@ Qed.
 
 Lemma mweight_nonneg m ws a b : weights_ok m ws = true -> 0 <= mweight m ws a b.
 Proof.
-  destruct ws as [|pts|wl]; simpl; intros H.
+  assert (C : forall wl, Nat.eqb (length wl) (length (edges m)) && forallb (fun x => 0 <=? x) wl = true ->
+                         0 <= ecustom m wl a b).
+  { intros wl H. unfold ecustom. destruct (edge_id m a b) as [e|]; [|lia].
+    rewrite andb_true_iff in H. destruct H as [_ H]. unfold znth.
+    destruct (e <? 0); [lia|]. apply nth_nonneg. exact H. }
+  destruct ws as [|pts|wl|wl]; simpl; intros H; [| | apply C; exact H | apply C; exact H].
   - lia.
   - unfold elen. apply Z.sqrt_nonneg.
-  - unfold ecustom. destruct (edge_id m a b) as [e|]; [|lia].
-    rewrite andb_true_iff in H. destruct H as [_ H]. unfold znth.
-    destruct (e <? 0); [lia|]. apply nth_nonneg. exact H.
 Qed.
 
 Lemma chain_ok_spec ok p : chain_ok ok p = true <-> chainP (fun a b => ok a b = true) p.
